@@ -30,7 +30,11 @@ LEVEL.update({
  "C14": ("The line state machine is checked as a typestate over feasible paths (the reading-name state is never left without flushing the name or failing), together with the transition table for '#', '%', non-ASCII and parse failures, the v4/A and v6/AAAA family tables of all converters, the serialiser's per-family output and the tools' call pairs. hosts(5) semantics over arbitrary text is declined.", "3/C14"),
  "C16": ("Well-formedness is decided by ownership and dominance: only the constructors can build DomainName/Label, no field is mutated elsewhere, the 63/255 limits and the root-label conditions dominate every construction, the recorded length is accumulated only from label count and label lengths, bytes pass through to_ascii_lowercase, comparison/hash impls are derived, is_subdomain_of is slice::ends_with. The dotted-text round trip is declined.", "3/C16"),
 })
+LEVEL.update({
+ "C09": ("The request path's shape is decided on every path: the four dispatch outcomes of handle_raw_message, header-field origins of make_response / FORMERR, the triage table and REFUSED arm, RA = !authoritative_only and recursion iff RD && RA, the 512-byte cut with TC and the TCP length prefix, single send/handle sites outside loops, the section/AA/RCODE map per resolver result, serve loops without exit edges and process::exit confined to start-up. One clause is violated on the pinned tree and recorded as a known finding (referral NS records reach the answer section in authoritative-only mode). Live socket behaviour is declined.", "3/C09"),
+})
 TECH = {
+ "C09": "custom MIR rules: arm tables from edge facts, ORIGIN of stored header fields and sent slices, who-calls, loop exit-edge analysis across spawned closures",
  "C14": "custom MIR rules: typestate via CUT-REACH on feasible paths (scrutinee-consistent reachability), arm tables, ORIGIN of insert arguments",
  "C16": "custom MIR rules: who-constructs / who-writes, guard dominance with named-constant operands, accumulator-definition shapes, derived-impl inventory",
  "C15": "custom MIR rules: bounded path enumeration with symbolic counter effects (EFFECT), paired-update must-pass-through, min-fold shape via ORIGIN, who-calls",
